@@ -409,11 +409,11 @@ impl Property for C20 {
         "C20"
     }
     fn rule(&self) -> &'static str {
-        "case = history of 0..6 add operations over {instance, parametric instance, solution state, sample set} with generated messages (including default/empty ones and the same message added twice) and annotation maps built through the typed setters (title, comma-free authors, creation time with sub-second part, licence, dataset, counts, start/end, digests, JSON parameters, user-defined keys incl. non-ASCII values), built as an unnamed local OCI archive, checked after build() and after re-opening the file | a non-OMMX image built with ocipkg's own builder; \
+        "case = history of 0..6 add operations over {instance, parametric instance, solution state, sample set} with generated messages (including default/empty ones and the same message added twice) and annotation maps built through the typed setters (title, comma-free authors, creation time with sub-second part, licence, dataset, counts, start/end, digests, JSON parameters, user-defined keys incl. non-ASCII values), built as an unnamed local OCI archive, checked after build() and after re-opening the file | a non-OMMX image built with ocipkg's own builders (foreign artifact type; plain image manifest without artifactType, with and without a layer claiming an OMMX media type); \
          oracle = in-memory model: ordered list of (media type, message, annotations); non-trivial = >=3 layers of >=2 kinds with a non-empty annotation map; distinct = sha256(history)"
     }
     fn required_labels(&self) -> Vec<String> {
-        ["kind=instance", "kind=parametric-instance", "kind=solution", "kind=sample-set", "empty-message", "same-message-twice", "wrong-kind-request", "non-ommx-image", "zero-layers", "created-time", "user-defined-key", "identical-blob-different-kind", "reopened", "first-author-starts-with-blank", "author-with-outer-blank", "sample-set-in-1.6-layout"].iter().map(|s| s.to_string()).collect()
+        ["kind=instance", "kind=parametric-instance", "kind=solution", "kind=sample-set", "empty-message", "same-message-twice", "wrong-kind-request", "non-ommx-image", "non-ommx-image-without-artifact-type", "zero-layers", "created-time", "user-defined-key", "identical-blob-different-kind", "reopened", "first-author-starts-with-blank", "author-with-outer-blank", "sample-set-in-1.6-layout"].iter().map(|s| s.to_string()).collect()
     }
     fn cases(&self, tier: Tier) -> usize {
         match tier {
@@ -434,6 +434,7 @@ impl Property for C20 {
     fn run(&self, t: &mut Tape, ctx: &mut Ctx) -> PResult {
         let n = t.weighted(&[1, 2, 3, 3, 3, 2, 2]); // 0..6 layers
         let non_ommx = t.p(20);
+        let non_ommx_variant = t.choice(3);
         let plan: Vec<(u8, u8)> = (0..n).map(|_| (t.byte(), t.byte())).collect();
         if non_ommx {
             ctx.label("non-ommx-image");
@@ -441,6 +442,41 @@ impl Property for C20 {
             ctx.fp_str("non-ommx");
             let path = tmp_path("foreign");
             let _ = std::fs::remove_file(&path);
+            if non_ommx_variant != 0 {
+                // an ordinary image manifest: no artifactType field at all (optional in the OCI image manifest), with or
+                // without a layer that claims the media type of an OMMX instance
+                ctx.label("non-ommx-image-without-artifact-type");
+                ctx.fp(&[non_ommx_variant as u8]);
+                let r = (|| -> anyhow::Result<Vec<&'static str>> {
+                    use ocipkg::image::ImageBuilder;
+                    use ocipkg::oci_spec::image::{DescriptorBuilder, ImageManifestBuilder};
+                    let mut layout = ocipkg::image::OciArchiveBuilder::new_unnamed(path.clone())?;
+                    let config = layout.add_empty_json()?;
+                    let mut layer_list = vec![];
+                    if non_ommx_variant == 1 {
+                        let (digest, size) = layout.add_blob(b"not an ommx message")?;
+                        layer_list.push(DescriptorBuilder::default().media_type(media_types::v1_instance()).digest(digest.to_string()).size(size).build()?);
+                    }
+                    let manifest = ImageManifestBuilder::default().schema_version(2_u32).config(config).layers(layer_list).build()?;
+                    let _ = layout.build(manifest)?;
+                    let mut a = Artifact::from_oci_archive(&path)?;
+                    let mut accepted = vec![];
+                    if a.get_manifest().is_ok() {
+                        accepted.push("get_manifest");
+                    }
+                    if a.get_layer_descriptors(&media_types::v1_instance()).is_ok() {
+                        accepted.push("get_layer_descriptors");
+                    }
+                    Ok(accepted)
+                })();
+                let _ = std::fs::remove_file(&path);
+                ctx.sample_with(|| json!({"case": "image without artifactType: get_manifest must fail", "variant": non_ommx_variant}));
+                return match r {
+                    Ok(v) if v.is_empty() => Ok(()),
+                    Ok(v) => fail("C20/non-ommx-manifest-accepted/no-artifact-type", format!("{v:?} succeeded on an image whose manifest has no artifactType (variant {non_ommx_variant})")),
+                    Err(e) => fail("C20/non-ommx-infra", format!("could not build the plain image: {e:#}")),
+                };
+            }
             let r = (|| -> anyhow::Result<bool> {
                 let archive = ocipkg::image::OciArchiveBuilder::new_unnamed(path.clone())?;
                 let mut b = ocipkg::image::OciArtifactBuilder::new(archive, MediaType::Other("application/vnd.example.something".to_string()))?;
